@@ -4,7 +4,8 @@
 \*             GET, WS, FORM with present/absent members; GRAPHQL (query only)
 \*   ResetFields = the six fields POST.Do resets; reset in the deferred func; cache keyed on the full text
 \*   PoolMax = 1, Slots = 1.  EmitEdge prints one request-level labelled edge per finished request (-workers 1).
-\* Measured: 76,692 distinct states, 15,696 edges over 18 shared states, depth 23, 15 s.
+\*   Configs = {none} (no ResponseHeaders), Accept absent: the header instance is MC_HttpStateHdr.cfg.
+\* Measured: 92,388 distinct states, 15,696 edges over 18 shared states, depth 26, 17 s.
 CONSTANTS
   Requests <- RequestsQuick
   ResetFields <- AllSix
